@@ -3,7 +3,7 @@
    satisfiable and record concrete behaviour of the faithful model. *)
 From Coq Require Import ZArith List Bool Lia Sorted Field.
 From IBL.lib Require Import PyInt.
-From IBL.C20 Require Import Model Proofs FloatRank.
+From IBL.C20 Require Import Model Proofs FloatRank RankForms.
 From Coq Require Import Reals.
 From Flocq Require Import Core.
 Import ListNotations.
@@ -338,6 +338,36 @@ Print Assumptions C20_svd_rank_float_exact.
 Example svd_rank_examples :
   svd_rank 3 47 47 = 3 /\ svd_rank 2 98 49 = 1 /\ svd_rank 0 384 96 = 24 /\ svd_rank 5 12 7 = 2.
 Proof. vm_compute. repeat split; reflexivity. Qed.
+
+(* UNEQUAL collections: whenever the exact share rank * n_i / nc of a collection of n_i traces is an integer, the code's
+   binary64 expression (product first, ONE rounded division) returns exactly that integer. *)
+Theorem C20_svd_rank_exact_share : forall rank nc size : Z,
+  0 < nc < 2 ^ 26 -> 0 < rank < 2 ^ 26 -> 0 <= size <= nc -> (rank * size) mod nc = 0 ->
+  Zfloor (rnd64 (IZR (rank * size) / IZR nc)) * nc = rank * size /\ svd_rank rank nc size * nc = rank * size.
+Proof.
+  intros rank nc size Hnc Hrank Hsize Hdiv.
+  pose proof (C20_svd_rank_float_exact rank nc size Hnc ltac:(lia) Hsize) as H.
+  assert (E : (rank =? 0) = false) by (apply Z.eqb_neq; lia). rewrite E in H. rewrite H.
+  unfold svd_rank. rewrite E.
+  pose proof (Z.div_mod (rank * size) nc ltac:(lia)). split; lia.
+Qed.
+Print Assumptions C20_svd_rank_exact_share.
+
+(* The RE-ASSOCIATED forms are not exact: kernel sweeps over an exact integer model of binary64 (RankForms.v; tied to the
+   host's floats on every run).  On the box 1 <= n, rank <= nc <= 64 the code's form is the exact floor everywhere, while
+   rank * (n / nc) floors one lower on exactly 39 triples (e.g. nc = 22, n = 15, rank = 22 -> 14) and (rank / nc) * n on
+   the same triples with n and rank exchanged; for nc = 384 and collection sizes that are multiples of 16 the only such
+   triple is n = 208, rank = 216 (116 instead of 117). *)
+Theorem C20_rank_reassociation_sweep :
+  bad_triples form_code (zr 1 64) = [] /\
+  prop_bad_64 = prop_bad_64_list /\ all_one_lower form_prop prop_bad_64_list = true /\
+  (forall rank n nc, form_ratio rank n nc = form_prop n rank nc) /\
+  prop_bad_384 = [(384, 208, 216)] /\ form_prop 216 208 384 = 116 /\ form_code 216 208 384 = 117.
+Proof.
+  split; [exact code_form_exact_64|]. split; [exact (proj1 prop_form_bad_64)|]. split; [exact (proj2 prop_form_bad_64)|].
+  split; [exact form_ratio_swap|]. exact prop_form_bad_384.
+Qed.
+Print Assumptions C20_rank_reassociation_sweep.
 
 (* a single plane wave A u^i v^j on a complete regular grid fills the block trajectory
    matrix with an outer product f(row) * g(column): rank one. *)
